@@ -216,11 +216,19 @@ LEMMAS = {
                                   "apart(lo5(R, a), hi5(R, a), lo5(R, b), hi5(R, b)) and apart(lo5(R, a), hi5(R, a), lo3(R, b), hi3(R, b)) "
                                   "and apart(lo3(R, a), hi3(R, a), lo3(R, b), hi3(R, b)))"]},
     # the ghost-free reading of the decoder's postcondition follows from the one stated with the inverse strand map G
+    "on3_map": {"kind": "smt", "params": ["R", "G", "N"], "shapes": ["list[tuple[int,int,int]]", "list[int]", "int"],
+                "requires": ["regions_ok(R, N)", "region_map(G, R, N, len(R))"],
+                "ensures": ["forall(lambda y, a: implies(0 <= a and a < len(R) and on3(R, a, y), 0 <= y and y < N and G[y] == a))"]},
     "decoded_plain": {"kind": "smt", "params": ["P", "R", "G", "N"],
                       "shapes": ["list[tuple[int,int]]", "list[tuple[int,int,int]]", "list[int]", "int"],
                       "requires": ["regions_ok(R, N)", "region_map(G, R, N, len(R))", "decoded_g(P, R, G, N)"],
                       "steps": [
-                          "forall lo, hi | assert implies(noclose_g(R, G, lo, hi) and 0 <= lo and hi <= N, noclose(R, lo, hi))",
+                          "use on3_map(R, G, N)",
+                          # every noclose(..) fact is proved for an arbitrary position y and region a, naming G[y] first
+                          "forall y, a | assert implies(0 <= a and a < len(R) and on3(R, a, y), 0 <= y and y < N and G[y] == a) | assert implies(len(P) > 0 and 0 <= y and y < P[0][1] and 0 <= a and a < len(R), not on3(R, a, y))",
+                          "forall y, a | assert implies(0 <= a and a < len(R) and on3(R, a, y), 0 <= y and y < N and G[y] == a) | assert implies(len(P) > 0 and P[len(P) - 1][1] + 1 <= y and y < N and 0 <= a and a < len(R), not on3(R, a, y))",
+                          "forall y, a | assert implies(0 <= a and a < len(R) and on3(R, a, y), 0 <= y and y < N and G[y] == a) | assert implies(len(P) == 0 and 0 <= y and y < N and 0 <= a and a < len(R), not on3(R, a, y))",
+                          "forall q, y, a | assert implies(0 <= a and a < len(R) and on3(R, a, y), 0 <= y and y < N and G[y] == a) | assert implies(0 <= q and q + 1 < len(P) and P[q][1] + 1 <= y and y < P[q + 1][1] and 0 <= a and a < len(R), not on3(R, a, y))",
                           "forall q | assert implies(0 <= q and q < len(P), P[q][1] < N and 0 <= G[P[q][1]] and G[P[q][1]] < len(R) and on3(R, G[P[q][1]], P[q][1]) and P[q][0] == lo5(R, G[P[q][1]]) + (hi3(R, G[P[q][1]]) - P[q][1]))",
                       ],
                       "ensures": ["forall(lambda q: implies(0 <= q and q < len(P), P[q][1] < N and exists(lambda a: 0 <= a and a < len(R) and on3(R, a, P[q][1]) and P[q][0] == lo5(R, a) + (hi3(R, a) - P[q][1]))))",
@@ -462,6 +470,7 @@ class make_dot_bracket:
     modifies = []
     locals = {"structure": "cstr"}
     callee_variants = {"DotBracket.from_string": "painted"}
+    ghost_exit = ["use decoded_plain(result.pairs, regions, G, len(self.entries))"]
     ghost_entry = ["forall a, b | use strands_apart(self.entries, regions, a, b) | assert implies(0 <= a and a < len(regions) and 0 <= b and b < len(regions) and a != b, "
                    "apart(lo5(regions, a), hi5(regions, a), lo5(regions, b), hi5(regions, b)) and "
                    "apart(lo5(regions, a), hi5(regions, a), lo3(regions, b), hi3(regions, b)) and "
